@@ -1,0 +1,32 @@
+//go:build verif
+
+package dns
+
+// Add-only exports of DNSSEC signing internals for the verification harness
+// (property C10). Compiled only with -tags verif.
+
+// VerifRawSignatureData returns the canonical RR octets (RFC 4034 3.1.8.1,
+// the part after the RRSIG RDATA) that Sign and Verify feed to the hash.
+func VerifRawSignatureData(rrset []RR, s *RRSIG) ([]byte, error) {
+	return rawSignatureData(rrset, s)
+}
+
+// VerifPackSigWire returns the RRSIG RDATA without the signature, built from
+// the fields of s the way RRSIG.Verify builds it (signer name in canonical form).
+func VerifPackSigWire(s *RRSIG) ([]byte, error) {
+	sigwire := new(rrsigWireFmt)
+	sigwire.TypeCovered = s.TypeCovered
+	sigwire.Algorithm = s.Algorithm
+	sigwire.Labels = s.Labels
+	sigwire.OrigTtl = s.OrigTtl
+	sigwire.Expiration = s.Expiration
+	sigwire.Inception = s.Inception
+	sigwire.KeyTag = s.KeyTag
+	sigwire.SignerName = CanonicalName(s.SignerName)
+	buf := make([]byte, DefaultMsgSize)
+	n, err := packSigWire(sigwire, buf)
+	if err != nil {
+		return nil, err
+	}
+	return buf[:n], nil
+}
